@@ -119,6 +119,9 @@ enum What {
 	/// call to a blocking method whose callback panics with a message of this many bytes: the library answers with its
 	/// constant -32603 (how long the panic message is must not show in the reply)
 	Panic(u32),
+	/// call to a method that succeeds with a value whose `Serialize` fails with a message of this many bytes: the
+	/// library's constant -32603 again (flavor selects the sync / async / blocking callback)
+	Unser(u32),
 	/// no id: never answered, contributes nothing to a batch reply
 	Notif,
 	/// batch entry that is no request: the number `1` (answered -32600 with id null) or an object with nothing but an id
@@ -179,6 +182,7 @@ fn request_text(c: &Call) -> String {
 		),
 		What::Unknown => format!("{{\"jsonrpc\":\"2.0\",\"id\":{},\"method\":\"no_such_method\",\"params\":[1{pad}]}}", c.id_wire),
 		What::Panic(n) => format!("{{\"jsonrpc\":\"2.0\",\"id\":{},\"method\":\"panic_blocking\",\"params\":[{n}{pad}]}}", c.id_wire),
+		What::Unser(n) => format!("{{\"jsonrpc\":\"2.0\",\"id\":{},\"method\":\"unser{fl}\",\"params\":[{n}{pad}]}}", c.id_wire),
 		What::Notif => format!("{{\"jsonrpc\":\"2.0\",\"method\":\"gen{fl}\",\"params\":[0,0,1,1{pad}]}}"),
 		What::Invalid { with_id: true } => format!("{{\"jsonrpc\":\"2.0\",\"id\":{}}}", c.id_wire),
 		What::Invalid { with_id: false } => "1".to_string(),
@@ -201,7 +205,7 @@ fn expected_single(c: &Call) -> Option<String> {
 		What::Unknown => {
 			Some(format!("{{\"jsonrpc\":\"2.0\",\"id\":{},\"error\":{{\"code\":-32601,\"message\":\"Method not found\"}}}}", c.id))
 		}
-		What::Panic(_) => Some(format!("{{\"jsonrpc\":\"2.0\",\"id\":{},\"error\":{{\"code\":-32603,\"message\":\"Internal error\"}}}}", c.id)),
+		What::Panic(_) | What::Unser(_) => Some(format!("{{\"jsonrpc\":\"2.0\",\"id\":{},\"error\":{{\"code\":-32603,\"message\":\"Internal error\"}}}}", c.id)),
 		What::Notif => None,
 		What::Invalid { with_id } => Some(format!(
 			"{{\"jsonrpc\":\"2.0\",\"id\":{},\"error\":{{\"code\":-32600,\"message\":\"Invalid request\"}}}}",
@@ -233,6 +237,7 @@ fn what_name(w: &What) -> &'static str {
 		What::Err { .. } => "error",
 		What::Unknown => "unknown-method",
 		What::Panic(_) => "panicking-blocking-method",
+		What::Unser(_) => "unserialisable-result",
 		What::Notif => "notification",
 		What::Invalid { .. } => "invalid-entry",
 	}
@@ -314,7 +319,7 @@ fn judge_single(c: &Call, limit: u32, replies: &[Vec<u8>], invocations: Option<u
 
 	// acceptance does not depend on the response limit: a registered method runs exactly once, whatever the limit
 	if let Some(n) = invocations {
-		let want = matches!(c.what, What::Gen(_) | What::Err { .. } | What::Panic(_)) as usize;
+		let want = matches!(c.what, What::Gen(_) | What::Err { .. } | What::Panic(_) | What::Unser(_)) as usize;
 		if n != want {
 			v("handler-invocations", format!("handler ran {n} time(s), expected {want}"));
 		}
@@ -361,7 +366,7 @@ fn judge_single(c: &Call, limit: u32, replies: &[Vec<u8>], invocations: Option<u
 		} else {
 			out.accepted_text = Some(String::from_utf8_lossy(wire).into_owned());
 		}
-	} else if matches!(c.what, What::Unknown | What::Panic(_)) && parsed == exp_val {
+	} else if matches!(c.what, What::Unknown | What::Panic(_) | What::Unser(_)) && parsed == exp_val {
 		// constant protocol error above a tiny limit: covered by the floor (design relaxation), sent as is
 		out.accepted_text = Some(String::from_utf8_lossy(wire).into_owned());
 	} else if parsed == exp_val {
@@ -576,6 +581,10 @@ fn plan_single(r: &mut Rng, limit: u32) -> Call {
 		let n = if r.bool() { pick_target(r, limit) as u32 } else { limit.saturating_add(r.below(2000) as u32) };
 		return Call { id: id.0, id_wire: id.1, flavor: 2, what: What::Panic(n.min(100_000)), pad: 0 };
 	}
+	if r.chance(1, 30) {
+		let n = if r.bool() { pick_target(r, limit) as u32 } else { limit.saturating_add(r.below(2000) as u32) };
+		return Call { id: id.0, id_wire: id.1, flavor, what: What::Unser(n.min(100_000)), pad: 0 };
+	}
 	let is_err = r.chance(1, 3);
 	let want = pick_target(r, limit);
 	let pad = pick_pad(r);
@@ -763,6 +772,15 @@ fn parse_pay(s: &mut jsonrpsee_types::params::ParamsSequence<'_>) -> Result<PayS
 /// (the serde `collect_seq` pattern over a consumed iterator). Half of the results are of this kind (odd `fill`); the
 /// reply the statement promises is what the value serialises to - the library has exactly one serialisation to decide
 /// with and to send.
+/// A result whose serialisation fails with a message of the given length.
+#[derive(Clone)]
+struct Unser(usize);
+impl Serialize for Unser {
+	fn serialize<S: serde::Serializer>(&self, _: S) -> Result<S::Ok, S::Error> {
+		Err(serde::ser::Error::custom("u".repeat(self.0)))
+	}
+}
+
 #[derive(Clone)]
 struct OneShot {
 	value: Value,
@@ -829,6 +847,22 @@ fn module(log: HLog) -> RpcModule<HLog> {
 	m.register_blocking_method("err_blocking", |p, log, _| {
 		log.push("err_blocking");
 		do_err(&p)
+	})
+	.unwrap();
+	// the handler succeeds; what it returns cannot be serialised, and says so at length
+	m.register_method("unser", |p, log, _| {
+		log.push("unser");
+		Ok::<_, ErrorObjectOwned>(Unser(p.sequence().next().unwrap_or(0)))
+	})
+	.unwrap();
+	m.register_async_method("unser_async", |p, log, _| async move {
+		log.push("unser_async");
+		Ok::<_, ErrorObjectOwned>(Unser(p.sequence().next().unwrap_or(0)))
+	})
+	.unwrap();
+	m.register_blocking_method("unser_blocking", |p, log, _| {
+		log.push("unser_blocking");
+		Ok::<_, ErrorObjectOwned>(Unser(p.sequence().next().unwrap_or(0)))
 	})
 	.unwrap();
 	m.register_blocking_method("panic_blocking", |p, log, _| {
@@ -1458,7 +1492,7 @@ fn direct_workload(seed: u64, n: usize, limits: &[u32], ev: &mut Evidence, viola
 		let limit = *r.pick(limits);
 		let case = if r.chance(3, 5) {
 			let mut c = plan_single(&mut r, limit);
-			if matches!(c.what, What::Unknown | What::Panic(_)) {
+			if matches!(c.what, What::Unknown | What::Panic(_) | What::Unser(_)) {
 				let id = gen_id(&mut r, true);
 				c = tune_call(&mut r, id, 0, false, limit as usize, 0);
 			}
@@ -1598,7 +1632,7 @@ fn main() {
 					let mut r = Rng::new(1);
 					let c2 = Case::Batch { limit: *limit, entries: only_calls(entries.clone(), &mut r) };
 					run_direct_case(&c2, &mut ev, &mut v);
-				} else if matches!(c, Case::Single { call, .. } if !matches!(call.what, What::Unknown | What::Panic(_) | What::Notif)) {
+				} else if matches!(c, Case::Single { call, .. } if !matches!(call.what, What::Unknown | What::Panic(_) | What::Unser(_) | What::Notif)) {
 					run_direct_case(c, &mut ev, &mut v);
 				}
 			}
